@@ -105,6 +105,9 @@ class C12(Property):
         ]
         # the cleaner's whole retry schedule: 1 s, 5 s, 1 min, 5 min, 1 h on a 300-slot wheel
         cs.append({"kind": "cleaner", "ops": [["add", 0, 9], ["tick"], ["add", 1, 1]] + T * 3970})
+        # seed C06-9 through the wheel: two clean tasks of different stores about the same cache key, the first still pending
+        cs.append({"kind": "cleaner", "ops": [["add", 0, 2, 7], ["add", 1, 1, 7]] + T * 8})
+        cs.append({"kind": "cleaner", "ops": [["add", 0, 3, 7], ["tick"], ["tick"], ["add", 1, 0, 7]] + T * 70})
         return cs
 
     def gen(self, rng, n, tier):
@@ -122,8 +125,8 @@ class C12(Property):
             cases.append(self._gen_two(rng))
         for _ in range(n - n_cache - n_clean - n_free - n_gated - n_two):
             cases.append(self._gen_wheel(rng))
-        for _ in range(n_cache):
-            cases.append(self._gen_cache(rng))
+        for j in range(n_cache):
+            cases.append(self._gen_two_caches(rng) if j % 8 == 7 else self._gen_cache(rng))
         for _ in range(n_clean):
             cases.append(self._gen_cleaner(rng))
         return cases
@@ -303,6 +306,17 @@ class C12(Property):
                 ops += T * rng.randint(5, 15)
         return {"kind": "cache", "limit": limit, "expire_ms": expire_ms, "ops": ops + [["drain"]]}
 
+    def _gen_two_caches(self, rng):
+        """two caches in one process using the same key strings: nothing of one may show in the other"""
+        a, b = self._gen_cache(rng), self._gen_cache(rng)
+        qa = [["@", 0] + o for o in a["ops"]]
+        qb = [["@", 1] + o for o in b["ops"]]
+        ops = []
+        while qa or qb:
+            q = qa if (qa and (not qb or rng.random() < 0.5)) else qb
+            ops.append(q.pop(0))
+        return {"kind": "cache", "limit": a["limit"], "two": True, "limit2": b["limit"], "expire_ms": a["expire_ms"], "ops": ops}
+
     def _gen_cleaner(self, rng):
         ops = []
         ntasks = rng.randint(1, 4)
@@ -310,12 +324,13 @@ class C12(Property):
         total = rng.choice([20, 80, 80, 400])
         while len(ops) < total:
             if tid < ntasks and rng.random() < 0.1:
-                ops.append(["add", tid, rng.choice([0, 1, 2, 2, 3])])
+                # the cache key the task is about: tasks of caches over different stores name the same keys
+                ops.append(["add", tid, rng.choice([0, 1, 2, 2, 3]), rng.choice([0, 0, 1])])
                 tid += 1
             else:
                 ops.append(["tick"])
         if tid == 0:
-            ops.insert(0, ["add", 0, 2])
+            ops.insert(0, ["add", 0, 2, 0])
         return {"kind": "cleaner", "ops": ops}
 
     def _gen_free(self, rng):
@@ -478,15 +493,33 @@ class C12(Property):
             return "CNew %s %s %s %s %s %s" % (cz(case["n"]), cz(case["interval"]), cbool(case["exec"]),
                                               cbool(obs["accepted"]), r1, r2)
         if kind == "cache":
-            exp = case["expire_ms"] * 1000000
-            h = clist(["(%s, mkKobs %s %s %s %s)" % (self._kop(o, exp), self._trace(o, s), self._fired(s["f"]),
-                                                    clist([cz(k) for k in (s.get("keys") or [])]), self._ret(o, s))
-                       for o, s in zip(case["ops"], steps)])
-            return "CCache %s %s %s %s" % (cz(case["limit"]), cz(obs["n"]), cz(obs["interval"]), h)
+            if case.get("two"):
+                parts = []
+                for ci, limit in enumerate([case["limit"], case["limit2"]]):
+                    ops, sts = [], []
+                    for o, st in zip(case["ops"], steps):
+                        tgt, oo = (o[1], o[2:]) if o[0] == "@" else (0, o)
+                        if tgt == ci:
+                            ops.append(oo)
+                            sts.append(st)
+                        else:       # the other cache's operation: nothing may happen in this one
+                            ops.append(["get", -1])
+                            sts.append({"t": st.get("xt"), "f": st.get("x") or [], "keys": st.get("xkeys"), "ret": [None]})
+                    parts.append(self._cache_term(limit, obs, case["expire_ms"], ops, sts))
+                return "CBoth (%s) (%s)" % (parts[0], parts[1])
+            return self._cache_term(case["limit"], obs, case["expire_ms"], case["ops"], steps)
         segs = clist(["(%s, %s, %s)" % (self._trace(o, s), self._fired(s["f"]),
                                         clist([cz(c[0]) for c in (s.get("c") or [])]))
                       for o, s in zip(case["ops"], steps)])
-        return "CTrace %s %s %s" % (cz(obs["n"]), cz(obs["interval"]), segs)
+        adds = clist([cbool(o[0] == "add") for o in case["ops"]])
+        return "CTrace %s %s %s %s" % (cz(obs["n"]), cz(obs["interval"]), segs, adds)
+
+    def _cache_term(self, limit, obs, expire_ms, ops, steps):
+        exp = expire_ms * 1000000
+        h = clist(["(%s, mkKobs %s %s %s %s)" % (self._kop(o, exp), self._trace(o, s), self._fired(s["f"]),
+                                                clist([cz(k) for k in (s.get("keys") or [])]), self._ret(o, s))
+                   for o, s in zip(ops, steps)])
+        return "CCache %s %s %s %s" % (cz(limit), cz(obs["n"]), cz(obs["interval"]), h)
 
     # ------------------------------------------------------------------ evidence
     def nontrivial(self, case, obs):
@@ -553,9 +586,11 @@ class C12(Property):
                     fs.append("batch_resumed_after_release")
         elif kind == "cache":
             fs.append("limit=%d" % case["limit"])
+            if case.get("two"):
+                fs.append("two_caches")
             if any(x[0] == "set" and x[3] < (obs.get("interval") or SEC) for s in obs["obs"] for x in (s.get("t") or [])):
                 fs.append("out_of_scope_delay")
-            if any(len([x for x in (s.get("t") or []) if x[0] == "remove"]) > 0 and o[0] in ("set", "setd", "take")
+            if any(len([x for x in (s.get("t") or []) if x[0] == "remove"]) > 0 and (o[2] if o[0] == "@" else o[0]) in ("set", "setd", "take")
                    for o, s in zip(case["ops"], obs["obs"])):
                 fs.append("evicting_set")
         if kind == "free":
